@@ -313,4 +313,158 @@ Proof.
     rewrite get_session_upd_other in Hss' by auto. eauto.
 Qed.
 
+
+(* ------------------------------------------------------------------ a session arrives *)
+
+Lemma V_add_session : forall sv ssn o q, get_session sv o <> None ->
+  V (mkServer (sv_tree sv) (sv_sessions sv ++ [ssn]) (sv_dirty sv)) o q = V sv o q.
+Proof.
+  intros sv ssn o q H. unfold V, get_session in *. cbn [sv_sessions]. rewrite find_session_app.
+  destruct (find_session (sv_sessions sv) o); [reflexivity|contradiction].
+Qed.
+
+Lemma attach_J : forall B sv s host nm o, small B -> inv B sv -> pend_ok sv -> get_session sv s = None ->
+  (forall ss, In ss (sv_sessions sv) -> session_dir ss <> [host; nm]) ->
+  o <> s -> J sv o -> J (attach sv s host nm) o /\ pend_ok (attach sv s host nm).
+Proof.
+  intros B sv s host nm o HB I Hpo Hnone Hfresh Hne HJ. unfold attach.
+  set (ssn := mkSession s host nm empty_matcher default_max_items None []).
+  set (sv0 := mkServer (sv_tree sv) (sv_sessions sv ++ [ssn]) (sv_dirty sv)).
+  destruct (attach_pre B sv s host nm I Hnone Hfresh) as [I0 Habsent]. fold ssn in I0. fold sv0 in I0.
+  assert (Hpo0 : pend_ok sv0).
+  { destruct Hpo as [H1 H2]. split; cbn [sv_sessions sv_dirty sv0].
+    - intros ss d Hin Hp. apply in_app_or in Hin as [Hin|[Hin|[]]]; [eauto|subst ss; discriminate].
+    - intros [ss [Hin Hp]]. apply in_app_or in Hin as [Hin|[Hin|[]]]; [apply H2; eauto|subst ss; now contradiction Hp]. }
+  assert (HJ0 : J sv0 o).
+  { intros ss0 Hss0 q Hown. unfold get_session in Hss0. cbn [sv_sessions sv0] in Hss0. rewrite find_session_app in Hss0.
+    destruct (find_session (sv_sessions sv) o) as [ss|] eqn:Hso.
+    - inversion Hss0; subst ss0. unfold sv0. rewrite V_add_session by (unfold get_session; now rewrite Hso).
+      apply HJ; auto.
+    - cbn [s_id ssn] in Hss0. destruct (N.eqb s o) eqn:E; [|discriminate]. apply N.eqb_eq in E. congruence. }
+  assert (Hdir0 : exists ss, In ss (sv_sessions sv0) /\ session_dir ss = [host; nm]).
+  { exists ssn. split; [cbn; apply in_or_app; right; now left|reflexivity]. }
+  match goal with |- J (push_all (notify_changed (set_tree ?X _) _ _ _ _ _)) _ /\ _ => set (sv1 := X) end.
+  assert (H1 : J sv1 o /\ pend_ok sv1 /\ inv_x B [host; nm] sv1 /\ has_node (sv_tree sv1) [host] = true
+               /\ find_node (sv_tree sv1) [host; nm] = None
+               /\ exists ss, In ss (sv_sessions sv1) /\ session_dir ss = [host; nm]).
+  { unfold sv1. destruct (has_node (sv_tree sv0) [host]) eqn:Hh.
+    - repeat (split; [assumption|]). exact Hdir0.
+    - assert (Hn0 : find_node (sv_tree sv0) ([] ++ [host]) = None).
+      { unfold has_node in Hh. cbn [app]. destruct (find_node (sv_tree sv0) [host]); [discriminate|reflexivity]. }
+      destruct (create_step_J mir B [host; nm] sv0 s [] host empty_payload o HB I0 Hpo0 (or_introl eq_refl)) as [Ha [Hb [Hc [Hd [He Hf]]]]]; auto.
+      { cbn. discriminate. }
+      cbn [app] in *. split; [exact Ha|split; [exact Hb|split; [exact Hc|split; [exact Hd|split]]]].
+      + rewrite Hf. apply find_node_none. intros n Hn. apply in_app_or in Hn as [Hn|[Hn|[]]].
+        * cbn [sv_tree sv0] in Hn. rewrite find_node_none in Habsent. now apply Habsent.
+        * subst n. cbn. discriminate.
+      + now apply (core_dir_exists (sv_sessions sv0)). }
+  destruct H1 as [HJ1 [Hpo1 [I1 [Hhost [Habs1 Hdir1]]]]].
+  destruct (create_step_J mir B [host; nm] sv1 s [host] nm empty_payload o HB I1 Hpo1 (or_intror Hhost)) as [Ha [Hb _]]; auto.
+  cbn [app] in *. split; [now apply J_push_all|now apply pend_ok_push_all].
+Qed.
+
+(* the session that notifies is never told *)
+Lemma V_notify_self_gen : forall sv by_ p d old r q, pend_ok sv ->
+  V (notify_changed sv by_ p d old r) by_ q = V sv by_ q.
+Proof.
+  intros sv by_ p d old r q Hpo. unfold notify_changed. destruct (find_node (sv_tree sv) p) as [n|]; auto.
+  revert sv Hpo. induction (n_subs n) as [|[k c] tb IH]; intros sv Hpo; cbn [fold_left]; auto. cbn [fst].
+  destruct (N.eqb k by_) eqn:E; [now apply IH|].
+  rewrite IH by (now apply pend_ok_node_changed).
+  destruct (get_session sv k) as [ssk|] eqn:Hk.
+  - rewrite (V_node_changed mir sv k ssk p d old r by_ q Hpo Hk).
+    rewrite (N.eqb_sym by_ k), E. reflexivity.
+  - unfold node_changed. now rewrite Hk.
+Qed.
+
+
+Lemma expected_empty : forall t (ss : session) q, s_subs ss = empty_matcher -> expected t ss q = None.
+Proof. intros t ss q H. unfold expected. rewrite H. destruct (find_node t q); reflexivity. Qed.
+
+(* the newcomer itself: nothing subscribed, nothing held *)
+Lemma attach_J_new : forall sv s host nm, mir = [] -> pend_ok sv -> get_session sv s = None ->
+  J (attach sv s host nm) s.
+Proof.
+  intros sv s host nm Hmir Hpo Hnone. unfold attach.
+  set (ssn := mkSession s host nm empty_matcher default_max_items None []).
+  set (sv0 := mkServer (sv_tree sv) (sv_sessions sv ++ [ssn]) (sv_dirty sv)).
+  assert (Hss0 : get_session sv0 s = Some ssn).
+  { unfold get_session in *. cbn [sv_sessions sv0]. rewrite find_session_app, Hnone. cbn [s_id ssn]. now rewrite N.eqb_refl. }
+  assert (Hpo0 : pend_ok sv0).
+  { destruct Hpo as [H1 H2]. split; cbn [sv_sessions sv_dirty sv0].
+    - intros ss d Hin Hp. apply in_app_or in Hin as [Hin|[Hin|[]]]; [eauto|subst ss; discriminate].
+    - intros [ss [Hin Hp]]. apply in_app_or in Hin as [Hin|[Hin|[]]]; [apply H2; eauto|subst ss; now contradiction Hp]. }
+  match goal with |- J (push_all (notify_changed (set_tree ?X ?T) _ _ _ _ _)) _ => set (sv1 := X); set (t2 := T) end.
+  assert (H1 : pend_ok sv1 /\ same_sess sv0 sv1 /\ forall q, V sv1 s q = V sv0 s q).
+  { unfold sv1. destruct (has_node (sv_tree sv0) [host]).
+    - split; [auto|split; [reflexivity|auto]].
+    - split; [apply pend_ok_notify_changed; exact Hpo0|split].
+      + apply (same_sess_trans sv0 (set_tree sv0 (add_node (sv_tree sv0) (mkNode [host] empty_payload (new_node_table sv0 [host])))));
+          [reflexivity|apply same_core_sess, notify_changed_core].
+      + intros q. rewrite V_notify_self_gen by exact Hpo0. reflexivity. }
+  destruct H1 as [Hpo1 [Hs1 HV1]].
+  set (sv3 := notify_changed (set_tree sv1 t2) s [host; nm] empty_payload None false).
+  assert (Hs3 : same_sess sv0 (push_all sv3)).
+  { apply (same_sess_trans sv0 sv1); auto. apply (same_sess_trans sv1 (set_tree sv1 t2)); [reflexivity|].
+    apply (same_sess_trans _ sv3); [apply same_core_sess, notify_changed_core|apply same_core_sess, push_all_core]. }
+  intros ss Hss q Hown.
+  destruct (get_session_sess sv0 _ s ss Hs3 Hss) as [ss0 [Hss0' [Hsub _]]].
+  assert (ss0 = ssn) by congruence. subst ss0.
+  rewrite expected_empty by (now rewrite <- Hsub).
+  rewrite V_push_all. unfold sv3. rewrite V_notify_self_gen by exact Hpo1. rewrite V_set_tree, HV1.
+  unfold V. rewrite Hss0. cbn. now rewrite Hmir.
+Qed.
+
+(* ------------------------------------------------------------------ a session leaves *)
+
+Lemma V_drop_session : forall sv t s o q, o <> s ->
+  V (mkServer t (filter (fun x => negb (N.eqb (s_id x) s)) (sv_sessions sv)) (sv_dirty sv)) o q = V sv o q.
+Proof.
+  intros sv t s o q Hne. unfold V, get_session. cbn [sv_sessions]. rewrite find_session_filter by congruence. reflexivity.
+Qed.
+
+(* marking never touches a payload *)
+Lemma data_at_adjust : forall t p s delta q, data_at (adjust_subs t p s delta) q = data_at t q.
+Proof.
+  intros t p s delta q. unfold data_at, adjust_subs. rewrite find_node_map_node by reflexivity.
+  destruct (find_node t q) as [n|]; auto. cbn. destruct (path_eqb (n_path n) p); reflexivity.
+Qed.
+
+Lemma data_at_mark_gen : forall t m s delta q, data_at (mark_nodes fx t m s delta) q = data_at t q.
+Proof.
+  intros t m s delta q. unfold mark_nodes.
+  apply (do_traversal_Q tree (continue_cb (fun acc n => adjust_subs acc (n_path n) s delta))
+           (fun acc => data_at acc q = data_at t q)); auto.
+  intros acc n H. unfold continue_cb. cbn [fst]. now rewrite data_at_adjust.
+Qed.
+
+Lemma detach_J : forall B sv s o, inv B sv -> pend_ok sv -> o <> s -> J sv o -> J (detach fx sv s) o.
+Proof.
+  intros B sv s o I Hpo Hne HJ. unfold detach.
+  destruct (get_session sv s) as [ss|] eqn:Hss; auto.
+  assert (Hin : In ss (sv_sessions sv)) by (apply find_session_some in Hss; tauto).
+  pose proof (inv_dirs_exist B sv ss I Hin) as Hdir.
+  assert (Hhost : has_node (sv_tree sv) [s_host ss] = true).
+  { apply has_node_spec in Hdir as [n [H1 H2]].
+    destruct (inv_tree _ _ _ I) as [_ [_ Hpre]].
+    destruct (Hpre n [s_host ss] [s_name ss] H1 H2) as [n' [H3 H4]]; [discriminate|].
+    apply has_node_spec. eauto. }
+  rewrite Hhost, Hdir.
+  destruct (remove_subtree_J mir sv s (session_dir ss) o (inv_marks_ok _ _ _ I) Hpo (or_introl Hne) HJ) as [HJ1 [Hpo1 [Hmk1 Hs1]]].
+  set (sv1 := remove_subtree sv s (session_dir ss) true) in *.
+  match goal with |- J (mkServer _ (filter _ (sv_sessions (push_all ?X))) _) _ => set (sv2 := X) end.
+  assert (H2 : J sv2 o /\ pend_ok sv2).
+  { unfold sv2. destruct (has_children (sv_tree sv1) [s_host ss]); [split; auto|].
+    destruct (remove_subtree_J mir sv1 s [s_host ss] o Hmk1 Hpo1 (or_introl Hne) HJ1) as [Ha [Hb _]]. split; auto. }
+  destruct H2 as [HJ2 Hpo2].
+  set (sv3 := push_all sv2).
+  assert (HJ3 : J sv3 o) by (now apply J_push_all).
+  (* unmarking touches subscriber tables only; dropping the session touches neither the observer nor the tree *)
+  intros ss' Hss' q Hown. unfold get_session in Hss'. cbn [sv_sessions] in Hss'.
+  rewrite find_session_filter in Hss' by congruence.
+  rewrite V_drop_session by auto. rewrite (HJ3 ss' Hss' q Hown). f_equal. cbn [sv_tree].
+  destruct (sv_tree sv3) as [|n0 t0] eqn:Et; [reflexivity|]. rewrite <- Et.
+  symmetry. apply expected_data. apply data_at_mark_gen.
+Qed.
+
 End Handlers.
